@@ -3,7 +3,7 @@
  *
  * events (configuration first, then START, then traffic):
  *   MAP m | USERBIN b          flash size map / running slot reported by the SDK (before START)
- *   ORACLE mode n S G          signature oracle: mode 0 = never valid, 1 = always valid,
+ *   ORACLE mode n S G          signature oracle (the last one of the case counts): mode 0 = never valid, 1 = always valid,
  *                              2 = valid iff exactly n bytes with checksum S were hashed and the
  *                                  512-byte signature buffer has checksum G
  *   FAILS : <hex>              result of the i-th flash erase/write (01 = fails), ok when exhausted
@@ -12,6 +12,8 @@
  *   START                      update cycle up to the HTTP request (prints BASE a | NOUPDATE)
  *   SEG : <hex>                one TCP segment of the HTTP response -> recv callback
  *   DISC [1]                   disconnect callback (1: reconnect/error callback)
+ *   ARENA                      segments are handed over inside a large zeroed buffer (reads past the
+ *                              segment return 00 instead of trapping under ASan)
  * outputs:
  *   BASE a | NOUPDATE | FLAG f | ERASE a | WRITE a len cks | VERIFY n sum siglen sigsum verdict
  *   | UPGRADEREBOOT | RESTART
@@ -98,30 +100,40 @@ static void do_start(void) {
 
 static void run_case(int n, char **lines) {
   static unsigned char buf[70000];
+  static unsigned char arena[140000];          /* ARENA: segment followed by zero bytes (over-reads do not trap) */
+  int seen_start = 0, use_arena = 0;
   v_quiet = 1;
   v_flash_map = FLASH_SIZE_16M_MAP_1024_1024; v_userbin = 0;
+  for (int i = 0; i < n; i++)                   /* the signature oracle of the case: the last ORACLE line */
+    if (!strncmp(lines[i], "ORACLE", 6)) {
+      unsigned long long a = 0, b = 0, s = 0, g = 0; sscanf(lines[i] + 6, "%llu %llu %llu %llu", &a, &b, &s, &g);
+      or_mode = (int)a; or_n = b; or_s = (unsigned)s; or_g = (unsigned)g;
+    }
   for (int i = 0; i < n; i++) {
     char *l = lines[i]; char *c = strchr(l, ':');
     int len = c ? hex2bytes(c + 1 + (c[1] == ' '), buf, sizeof buf) : 0;
-    if (!strncmp(l, "MAP", 3)) { if (!started) v_flash_map = (enum flash_size_map)atoi(l + 3); }
-    else if (!strncmp(l, "USERBIN", 7)) { if (!started) v_userbin = (uint8)atoi(l + 7); }
-    else if (!strncmp(l, "ORACLE", 6)) {
-      unsigned long long a = 0, b = 0, s = 0, g = 0; sscanf(l + 6, "%llu %llu %llu %llu", &a, &b, &s, &g);
-      or_mode = (int)a; or_n = b; or_s = (unsigned)s; or_g = (unsigned)g;
-    }
-    else if (!strncmp(l, "FAILS", 5)) { fails_n = len > (int)sizeof fails ? (int)sizeof fails : len; memcpy(fails, buf, fails_n); fails_i = 0; }
-    else if (!strncmp(l, "HEAP", 4)) { if (!started) { heap_n = len > (int)sizeof heap_fill ? (int)sizeof heap_fill : len; memcpy(heap_fill, buf, heap_n); } }
+    if (!strncmp(l, "MAP", 3)) { if (!seen_start) v_flash_map = (enum flash_size_map)atoi(l + 3); }
+    else if (!strncmp(l, "USERBIN", 7)) { if (!seen_start) v_userbin = (uint8)atoi(l + 7); }
+    else if (!strncmp(l, "ORACLE", 6)) { }
+    else if (!strncmp(l, "ARENA", 5)) { use_arena = 1; }
+    else if (!strncmp(l, "FAILS", 5)) { if (!seen_start) { fails_n = len > (int)sizeof fails ? (int)sizeof fails : len; memcpy(fails, buf, fails_n); fails_i = 0; } }
+    else if (!strncmp(l, "HEAP", 4)) { if (!seen_start) { heap_n = len > (int)sizeof heap_fill ? (int)sizeof heap_fill : len; memcpy(heap_fill, buf, heap_n); } }
     else if (!strncmp(l, "FLASHINIT", 9)) {
       unsigned a = (unsigned)strtoul(l + 9, NULL, 10);
-      if (!started) for (int k = 0; k < len; k++) if (a + k < sizeof v_flash) v_flash[a + k] = buf[k];
+      if (!seen_start) for (int k = 0; k < len; k++) if (a + k < sizeof v_flash) v_flash[a + k] = buf[k];
     }
-    else if (!strncmp(l, "START", 5)) { if (!started && !halted) do_start(); }
+    else if (!strncmp(l, "START", 5)) { seen_start = 1; if (!started && !halted) do_start(); }
     else if (!strncmp(l, "SEG", 3)) {
-      if (!started || halted) continue;
+      if (!started || halted || len > 65535) continue;
       struct espconn *e = c18_conn();
-      char *seg = malloc(len ? len : 1); memcpy(seg, buf, len);           /* exact size: ASan sees over-reads */
-      e->recv_callback(e, seg, (unsigned short)len);
-      free(seg);
+      if (use_arena) {
+        memset(arena, 0, sizeof arena); memcpy(arena, buf, len);
+        e->recv_callback(e, (char *)arena, (unsigned short)len);
+      } else {
+        char *seg = malloc(len ? len : 1); memcpy(seg, buf, len);         /* exact size: ASan sees over-reads */
+        e->recv_callback(e, seg, (unsigned short)len);
+        free(seg);
+      }
     }
     else if (!strncmp(l, "DISC", 4)) {
       if (!started || halted) continue;
